@@ -624,6 +624,9 @@ type c21Run struct {
 	// endpoint's last scan of it, so the endpoint's cache may name files that
 	// are gone or different.
 	dirty map[string]bool
+	// stagedSinceScan[root]: Stage was called on the root's endpoint after its last scan
+	stagedSinceScan map[string]bool
+	ready           bool // endpoints exist
 }
 
 func (x *c21Run) log(format string, a ...any) {
@@ -697,11 +700,23 @@ func (x *c21Run) edit(which string, n int, allowRoot, allowBulk bool) stepOutcom
 		}
 		kinds += op.Kind + ","
 		x.r.Count("edits", 1)
+		scanNow := false
 		if strings.HasPrefix(op.Kind, "root-") {
 			x.r.Count("edits_root_kind", 1)
+			scanNow = true
 		}
-		if strings.HasPrefix(op.Kind, "bulk") {
+		if strings.HasPrefix(op.Kind, "bulk") || (op.Kind == "remove" && strings.HasPrefix(op.Path, "big")) {
 			x.r.Count("edits_bulk", 1)
+			scanNow = true
+		}
+		if scanNow && x.ready {
+			// observe root kind changes and large deltas right away (the next
+			// edit usually restores the root)
+			if o := x.scan(which, x.rng.Intn(2) == 0); o.fatal || x.dead {
+				return stepOutcome{kind: "edit", fatal: true}
+			} else if o.class != "" {
+				x.r.Distinct(fmt.Sprintf("scan|%s|%s", o.class, x.p.Alg))
+			}
 		}
 	}
 	return stepOutcome{kind: "edit", class: ""}
@@ -711,6 +726,7 @@ func (x *c21Run) scan(which string, full bool) stepOutcome {
 	op := fmt.Sprintf("Scan(%s,full=%v)", which, full)
 	x.log("%s", op)
 	x.dirty[which] = false
+	x.stagedSinceScan[which] = false
 	var snaps [2]*core.Snapshot
 	var errs [2]error
 	var again [2]bool
@@ -830,8 +846,12 @@ func (x *c21Run) stageAndSupply(src, dst string) stepOutcome {
 		want = want[:1+x.rng.Intn(len(want))]
 		sort.Slice(want, func(i, j int) bool { return want[i].path < want[j].path })
 	}
-	if len(have) > 0 && x.rng.Intn(3) == 0 {
-		want = append(want, have[x.rng.Intn(len(have))])
+	if len(have) > 0 && x.rng.Intn(3) != 0 {
+		// files dst may already hold (same path and digest, or the digest under
+		// another path): they must be sourced locally, giving a proper subset
+		for k := 0; k < 1+x.rng.Intn(4); k++ {
+			want = append(want, have[x.rng.Intn(len(have))])
+		}
 	}
 	if x.rng.Intn(5) == 0 {
 		want = append(want, fileRef{fmt.Sprintf("ghost%d", x.rng.Intn(100)), contentFor(x.rng.Int63(), len(firstDigest(have)))})
@@ -891,6 +911,9 @@ func (x *c21Run) stageAndSupply(src, dst string) stepOutcome {
 		reqPaths[i] = append([]string(nil), paths...)
 		p, sg, rc, err := s.ep[dst].Stage(paths, digests)
 		outPaths[i], sigs[i], recvs[i], errs[i] = append([]string(nil), p...), sg, rc, err
+	}
+	if len(req) > 0 {
+		x.stagedSinceScan[dst] = true
 	}
 	x.r.Count("stages", 1)
 	if (errs[0] == nil) != (errs[1] == nil) {
@@ -1222,6 +1245,7 @@ func (x *c21Run) setup() error {
 		}
 		x.R.ep[which] = rep
 	}
+	x.ready = true
 	return nil
 }
 
@@ -1256,8 +1280,38 @@ func (x *c21Run) run() {
 		record(x.scan("b", x.rng.Intn(2) == 0))
 	}
 	bulkBudget := 0
-	if x.p.Index%5 == 0 {
-		bulkBudget = 3
+	if x.p.Index%4 == 0 {
+		// large-snapshot program: a bulk directory first, then many consecutive
+		// scans of the same endpoint with small and large changes in between
+		bulkBudget = 4
+		which := []string{"a", "b"}[x.rng.Intn(2)]
+		for _, op := range []diskOp{
+			{Kind: "bulk", Path: "big0", Count: 300 + x.rng.Intn(2200), Seed: x.rng.Int63(), Mtime: x.clock + 1},
+			{Kind: "bulk-touch", Path: "big0", Count: 97, Seed: x.rng.Int63(), Mtime: x.clock + 2},
+			{Kind: "write", Path: "big0/one-more", Size: 10, Seed: x.rng.Int63(), Mode: 0o644, Mtime: x.clock + 3},
+			{Kind: "bulk-touch", Path: "big0", Count: 2, Seed: x.rng.Int63(), Mtime: x.clock + 4},
+			{Kind: "bulk", Path: "big1", Count: 200 + x.rng.Intn(600), Seed: x.rng.Int63(), Mtime: x.clock + 5},
+			{Kind: "remove", Path: "big0"},
+		} {
+			if x.dead {
+				break
+			}
+			if listRoot(x.L.root(which)).rootKind != "dir" {
+				break
+			}
+			x.log("edit %s: %s", which, op)
+			el, er := applyOp(x.L.root(which), op), applyOp(x.R.root(which), op)
+			if (el == nil) != (er == nil) {
+				x.r.Inconclusive("edit-not-mirrored")
+				x.dead = true
+				break
+			}
+			x.dirty[which] = true
+			x.r.Count("edits", 1)
+			x.r.Count("edits_bulk", 1)
+			record(x.scan(which, x.rng.Intn(2) == 0))
+		}
+		x.clock += 10
 	}
 	for x.step = 1; x.step <= x.p.Steps && !x.dead; x.step++ {
 		which := []string{"a", "b"}[x.rng.Intn(2)]
@@ -1295,11 +1349,25 @@ func (x *c21Run) run() {
 			if oneWay {
 				dst, src = "b", "a"
 			}
+			if x.stagedSinceScan[dst] {
+				// a second Stage without a scan is an error that ends the remote
+				// server; it is exercised once, at the end of the program
+				record(x.scan(dst, false))
+				if x.dead {
+					break
+				}
+			}
 			record(x.stageAndSupply(src, dst))
 		case k < 17:
 			dst, src := which, other
 			if oneWay {
 				dst, src = "b", "a"
+			}
+			if x.rng.Intn(3) != 0 {
+				record(x.scan(dst, false))
+				if x.dead {
+					break
+				}
 			}
 			record(x.transition(src, dst))
 		case k < 19:
@@ -1406,7 +1474,7 @@ func startHeartbeat() *heartbeat {
 }
 
 func runC21Program(r *vk.Run, p *c21Program, hb *heartbeat) {
-	x := &c21Run{r: r, p: p, rng: rand.New(rand.NewSource(p.Seed)), snap: map[string]*core.Snapshot{}, dirty: map[string]bool{}, clock: 1_600_000_000 + int64(p.Index)*100_000}
+	x := &c21Run{r: r, p: p, rng: rand.New(rand.NewSource(p.Seed)), snap: map[string]*core.Snapshot{}, dirty: map[string]bool{}, stagedSinceScan: map[string]bool{}, clock: 1_600_000_000 + int64(p.Index)*100_000}
 	fmt.Printf("C21 program %d seed=%d steps=%d alg=%s cfg=%s\n", p.Index, p.Seed, p.Steps, p.Alg, cfgJSON(p.cfg))
 	done := make(chan struct{})
 	go func() {
